@@ -268,3 +268,123 @@ func execDial(f []string) string {
 	out = append(out, "rm2="+guardedLong(remove))
 	return finish()
 }
+
+// shareconn <shared|preclosed> <poll 0|1>
+//
+// The underlying *grpc.ClientConn is ALREADY closed when a target is removed (seeded C16-m11): `shared` — the connection
+// constructor (WithConnFunc) hands the SAME client to two names, both are added, both removed (the second removal finds
+// the client closed by the first); `preclosed` — one name, and the owner of the client closes it directly before Remove.
+// Whatever grpc.ClientConn.Close answers, after Remove returned a kept connection must answer Unavailable.
+//
+// output: addA=ok addB=ok getA=usable getB=usable rmA=t sA=unavail rmB=t sB=unavail getA2=absent getB2=absent leak=0
+func execShareConn(f []string) string {
+	if len(f) != 3 || (f[1] != "shared" && f[1] != "preclosed") || (f[2] != "0" && f[2] != "1") {
+		return "BADOP"
+	}
+	base := goroutineIDs()
+	lis := bufconn.Listen(1 << 16)
+	srv := grpc.NewServer()
+	go func() { _ = srv.Serve(lis) }()
+	newClient := func() (*grpc.ClientConn, error) {
+		return grpc.NewClient("passthrough:///c16-shared",
+			grpc.WithContextDialer(func(ctx context.Context, _ string) (net.Conn, error) { return lis.DialContext(ctx) }),
+			grpc.WithTransportCredentials(insecure.NewCredentials()))
+	}
+	var shared *grpc.ClientConn
+	var made []*grpc.ClientConn
+	connFunc := func(string, ...grpc.DialOption) (*grpc.ClientConn, error) {
+		if f[1] == "shared" && shared != nil {
+			return shared, nil
+		}
+		c, err := newClient()
+		if err == nil {
+			shared = c
+			made = append(made, c)
+		}
+		return c, err
+	}
+	opts := []grpcbridge.RouterOption{grpcbridge.WithConnFunc(connFunc)}
+	if f[2] == "1" {
+		opts = append(opts, grpcbridge.WithReflectionPollInterval(time.Second))
+	} else {
+		opts = append(opts, grpcbridge.WithDisabledReflectionPolling())
+	}
+	rr := grpcbridge.NewReflectionRouter(opts...)
+	pool := rr.VerifConnPool()
+	var out []string
+	tok := func(k, v string) { out = append(out, k+"="+v) }
+	add := func(n string) string {
+		return guarded(func() string {
+			ok, err := rr.Add(n, "c16-shared")
+			if ok != (err == nil) {
+				return "incons"
+			}
+			return errClass(err)
+		})
+	}
+	get := func(n string) (grpcadapter.ClientConn, string) {
+		c, ok := pool.Get(n)
+		switch {
+		case !ok:
+			return nil, "absent"
+		case c == nil:
+			return nil, "nil"
+		}
+		return c, "usable"
+	}
+	rm := func(n string) string {
+		return guardedLong(func() string {
+			if rr.Remove(n) {
+				return "t"
+			}
+			return "f"
+		})
+	}
+	stream := func(c grpcadapter.ClientConn) string {
+		if c == nil {
+			return "nohandle"
+		}
+		ctx, cancel := context.WithTimeout(metadata.NewOutgoingContext(context.Background(), metadata.MD{}), 2*time.Second)
+		defer cancel()
+		st, err := c.Stream(ctx, waitMethod)
+		switch status.Code(err) {
+		case codes.OK:
+			st.Close()
+			return "ok"
+		case codes.Unavailable:
+			return "unavail"
+		}
+		return "code" + strconv.Itoa(int(status.Code(err)))
+	}
+	tok("addA", add("a"))
+	tok("addB", add("b"))
+	ca, g := get("a")
+	tok("getA", g)
+	cb, g := get("b")
+	tok("getB", g)
+	if f[1] == "preclosed" {
+		for _, c := range made { // the owner of the clients closes them behind the router's back
+			_ = c.Close()
+		}
+	}
+	tok("rmA", rm("a"))
+	tok("sA", stream(ca))
+	tok("rmB", rm("b"))
+	tok("sB", stream(cb))
+	_, g = get("a")
+	tok("getA2", g)
+	_, g = get("b")
+	tok("getB2", g)
+	srv.Stop()
+	_ = lis.Close()
+	for _, c := range made {
+		_ = c.Close()
+	}
+	var left []gor
+	waitFor(leakTimeout, func() bool { left = leaked(base); return len(left) == 0 })
+	if len(left) > 0 {
+		contaminated.Store(true)
+	}
+	tok("leak", strconv.Itoa(len(left)))
+	return joinToks(out)
+}
